@@ -14,6 +14,8 @@ func init() {
 	verifRegister("VerifC19ParseMutated", VerifC19ParseMutated)
 	verifRegister("VerifC20ParseMutated", VerifC20ParseMutated)
 	verifRegister("VerifC19PrintError", VerifC19PrintError)
+	verifRegister("VerifC19ParseTruncated", VerifC19ParseTruncated)
+	verifRegister("VerifC20ParseTruncated", VerifC20ParseTruncated)
 }
 
 type verifDiscard struct{ n int }
@@ -99,6 +101,7 @@ var verifTL1Skeletons = []string{
 var verifTL2Skeletons = []string{
 	"a.point = x:int32 y?:int32;\na.u = one x:int32 | two | three a.point;",
 	"@read a.get#8ef1d9d6 id:int64 _:int32 => []a.point;\na.al <=> int64;\na.p<x:Type,n:#> = v:[n]x m:[string]x;",
+	"// c\na.m#0badcafe = | one x:int32; // r\n@write a.set#8ef1d9d7 p:a.p<int32,5> => ;\na.q<t:Type> <=> []t;",
 }
 
 // one or two symbolic bytes substituted / inserted / the text truncated at an enumerated position of a valid schema:
@@ -136,6 +139,29 @@ func verifParseMutated(lang LexerLanguage, skeletons []string) {
 	verifCover("rejected")
 	verifCheckParseError(err, s)
 }
+
+// every prefix of EVERY skeleton (no rotation: inputs are concrete, so this is cheap): a keyword, number, tag or comment cut
+// exactly at the end of the input is where lexers index past the text
+func verifParseTruncated(lang LexerLanguage, skeletons []string) {
+	text := skeletons[verifChoice(len(skeletons))]
+	s := text[:verifChoice(len(text)+1)]
+	opts := LexerOptions{LexerLanguage: lang}
+	var err error
+	if lang == TL1 {
+		_, err = ParseTLFile(s, "f.tl", opts)
+	} else {
+		_, err = ParseTL2File(s, "f.tl2", opts)
+	}
+	if err == nil {
+		verifCover("prefix-parsed")
+		return
+	}
+	verifCover("prefix-rejected")
+	verifCheckParseError(err, s)
+}
+
+func VerifC19ParseTruncated() { verifParseTruncated(TL1, verifTL1Skeletons) }
+func VerifC20ParseTruncated() { verifParseTruncated(TL2, verifTL2Skeletons) }
 
 // parser states reached by a valid prefix, then EVERY byte string of <= tailN bytes, then an optional valid ending: the parser
 // is entered in each of its contexts (field start / scale factor, type expression, type application, arithmetic operand,
